@@ -41,6 +41,20 @@ CATCH = {"Exception": Exception, "UserError": excs.UserError, "GeneratorExit": G
 THROWABLE = ["UserError", "ValueError", "GeneratorExit", "GenExitSub", "KeyboardInterrupt", "DeepUserError"]
 
 
+def _raise_it(e):
+    """Where thrown-in exceptions are first raised: this frame is part of their traceback."""
+    raise e
+
+
+def _origin(e):
+    """Does the exception's traceback still show where it was first raised?"""
+    import traceback as _tb
+    try:
+        return any(fs.name == "_raise_it" for fs in _tb.extract_tb(e.__traceback__))
+    except BaseException:
+        return None
+
+
 class GenExitSub(GeneratorExit):
     pass
 
@@ -98,7 +112,13 @@ class _Null(object):
 
 
 class Mon(object):
+    had_tb = ()
+
     def __init__(self, decorated):
+        self.had_tb = set()
+        self._init(decorated)
+
+    def _init(self, decorated):
         self.decorated = decorated
         self.trace = []
         self.problems = []
@@ -137,7 +157,7 @@ def make_genfunc(ops, mon, label, decorated, ret=None):
                     if cls is None or not isinstance(e, cls):
                         mon.probe(stack[-1], "%s after a throw at yield %s" % (label, op["val"]))
                         raise
-                    mon.trace.append((label, "caught", mon.sent.get(id(e), type(e).__name__)))
+                    mon.trace.append((label, "caught", mon.sent.get(id(e), type(e).__name__), _origin(e) if id(e) in mon.had_tb else None))
                     mon.probe(stack[-1], "%s after catching at yield %s" % (label, op["val"]))
                     then = op["then"]
                     if then == "reraise":
@@ -146,6 +166,10 @@ def make_genfunc(ops, mon, label, decorated, ret=None):
                         return ("r", op["val"])
                     if then == "raise_other":
                         raise excs.MidUserError("other %s" % op["val"])
+                import sys as _sys
+                # outside any handler of its own, a generator that was resumed normally (or has dealt with what was thrown in) sees
+                # no exception in flight
+                mon.trace.append((label, "exception in flight after yield", _sys.exc_info()[0] is not None))
                 mon.probe(stack[-1], "%s after resuming from yield %s" % (label, op["val"]))
             elif k == "act":
                 parent = stack[-1]
@@ -243,7 +267,7 @@ def make_genfunc(ops, mon, label, decorated, ret=None):
                 cls = CATCH.get(epi.get("catch"))
                 if cls is None or not isinstance(e, cls):
                     raise
-                mon.trace.append((label, "caught", mon.sent.get(id(e), type(e).__name__)))
+                mon.trace.append((label, "caught", mon.sent.get(id(e), type(e).__name__), _origin(e) if id(e) in mon.had_tb else None))
                 mon.probe(base, "%s after catching at its last yield" % label)
                 if epi["then"] == "reraise":
                     raise
@@ -325,6 +349,13 @@ def execute(bodies, script, decorated, tape, create_ctxs=None, epilogues=None):
                     e = EXC[st["exc"]]("thrown %d" % st["val"])
                     mon.sent[id(e)] = "thrown-%d" % st["val"]
                     sent_objs[st["val"]] = e
+                    if st["val"] % 2:
+                        # an exception that was raised and caught elsewhere before being thrown in carries its traceback along
+                        try:
+                            _raise_it(e)
+                        except BaseException:
+                            pass
+                        mon.had_tb.add(id(e))
                     out = g.throw(e)
                     ev = ("yielded", out)
                 else:
@@ -336,7 +367,9 @@ def execute(bodies, script, decorated, tape, create_ctxs=None, epilogues=None):
             tag = mon.sent.get(id(e))
             if tag is None:
                 tag = "foreign:" + type(e).__name__ + ":" + str(e)[:60]
-            ev = ("raised", tag)
+            ctx = e.__context__
+            ev = ("raised", tag, _origin(e) if id(e) in mon.had_tb else None,
+                  None if ctx is None else mon.sent.get(id(ctx), "foreign:" + type(ctx).__name__))
         mon.trace.append(("driver", gi, st["op"], ev))
         mon.probes += 1
         if decorated and current_action() is not before:
